@@ -250,6 +250,7 @@ inductive Out
   | ok | guard | refused | noduty        -- start / begin / decide
   | derr | dnew | ddup                   -- decided via the controller
   | rerr | rok                           -- decided via the runner (ProcessConsensus error / nil)
+  | cok | cerr | na                      -- commits: ProcessConsensus of the deciding commit nil / error; not applicable
   | done                                 -- compact
   | loaded | empty                       -- restart
 deriving DecidableEq, Repr
@@ -273,6 +274,13 @@ inductive Op
   /-- a commit-type message with these signers for (height, round, root) is processed, by `Controller.ProcessMsg`
       (`viaRunner = false`) or by the runner's `ProcessConsensus` (`true`) -/
   | decided (h round root : Nat) (signers : List Nat) (ok viaRunner : Bool)
+  /-- the same, while the store FAILS the first Save* call it receives during this op (storage fault at that moment);
+      `SaveInstance` errors are only logged by `UponDecided` and by the runner -/
+  | decidedSF (h round root : Nat) (signers : List Nat) (ok viaRunner : Bool)
+  /-- the running instance (fresh: round 1, nothing received yet) decides through INDIVIDUAL messages delivered to the
+      runner's `ProcessConsensus`: proposal of value `root`, prepares and commits of operators 1..quorum; `valOk` = verdict
+      of the runner's value check on the decided value at that moment (`validateDecidedConsensusData`) -/
+  | commits (root : Nat) (valOk : Bool)
   /-- `compactInstanceIfNeeded` for a message of height `h` (decided or round-change) -/
   | compact (h : Nat)
   /-- process state dropped, store kept, `Validator.Start` (`full` = node mode of the new process) -/
@@ -322,6 +330,55 @@ def decidedViaCtrl (s : State) (h : Nat) (m : Msg) (ok : Bool) : State × Out :=
   ({ s with c := p.1, s := p.2.1, r := syncRun s.r p.1 },
     match p.2.2 with | .err => .derr | .new => .dnew | .dup => .ddup)
 
+/-- does the save block of `UponDecided` reach the storage (so that an armed write failure is consumed there)? -/
+def firstSaveCalled (c : Ctrl) (st : Store) (h : Nat) (m : Msg) : Bool :=
+  (decidedBranch c st h m).2 &&
+    match find (decidedBranch c st h m).1 h with
+    | some i => c.full || decide (c.height ≤ i.height)
+    | none => false
+
+/-- `Controller.ProcessMsg` while the store fails its next write: everything of `UponDecided` happens (instance added,
+    Height bumped, decided message returned) except that nothing is written (the error is only logged) -/
+def decidedViaCtrlSF (s : State) (h : Nat) (m : Msg) (ok : Bool) : State × Out :=
+  let p := processMsg s.q s.c s.s h m ok
+  ({ s with c := p.1, r := syncRun s.r p.1 },
+    match p.2.2 with | .err => .derr | .new => .dnew | .dup => .ddup)
+
+/-- the runner path while the store fails the first write it receives: if `UponDecided`'s save reached the store it is
+    that one which failed, and the runner's own save (if it comes to it) succeeds; otherwise the runner's save fails -/
+def decidedViaRunnerSF (s : State) (h : Nat) (m : Msg) (ok : Bool) : State × Out :=
+  let p := processMsg s.q s.c s.s h m ok
+  let consumed := ok && decide (s.q ≤ m.signers.length) && firstSaveCalled s.c s.s h m
+  let c2 := if s.q ≤ m.signers.length then compactAt p.1 h else p.1
+  let r2 := syncRun s.r c2
+  let saves := runnerSaves s.r h p.2.2
+  ({ s with c := c2,
+            s := if saves && consumed then saveFound c2 s.s h m else s.s,
+            r := if saves then { r2 with hds := h } else r2 },
+   runnerOut s.r h p.2.2)
+
+/-- commit messages of operators 1..q for (round 1, root), as `AddFirstMsgForSignerAndRound` files them -/
+def singles (q root : Nat) : List Msg := (List.range' 1 q).map (fun k => ⟨Gen.heights_FirstRound, root, [k]⟩)
+
+/-- `commits`: applicable to a running, fresh instance that is still in the container. The q-th commit completes the
+    quorum: the instance decides, `UponExistingInstanceMsg` returns the aggregate of the q commits, and
+    `baseConsensusMsgProcessing` saves the instance (`SaveInstance`) and sets `highestDecidedSlot` BEFORE it validates
+    the decided value — so the value check only decides error / nil of `ProcessConsensus`. -/
+def commitsStep (s : State) (root : Nat) (valOk : Bool) : State × Out :=
+  match s.r.duty, s.r.running with
+  | some _, some rh =>
+    match find s.c.insts rh with
+    | some i =>
+      if !i.decided && i.commits.isEmpty && !i.stopped && i.round == Gen.heights_FirstRound then
+        let i' : Inst := { i with decided := true, commits := singles s.q root }
+        let c' : Ctrl := { s.c with insts := replaceInst i' s.c.insts }
+        let cert : Msg := ⟨Gen.heights_FirstRound, root, List.range' 1 s.q⟩
+        ({ s with c := c', s := saveFound c' s.s rh cert, r := { syncRun s.r c' with hds := rh } },
+          if valOk then .cok else .cerr)
+      else (s, .na)
+    | none => (s, .na)
+  | _, _ => (s, .na)
+
 def restartStep (s : State) (full : Bool) : State × Out :=
   let ld := loadHighest (newCtrl full) s.s
   match ld.2 with
@@ -341,6 +398,10 @@ def step (s : State) : Op → State × Out
   | .decided h round root signers ok viaRunner =>
     if viaRunner then decidedViaRunner s h ⟨round, root, signers⟩ ok
     else decidedViaCtrl s h ⟨round, root, signers⟩ ok
+  | .decidedSF h round root signers ok viaRunner =>
+    if viaRunner then decidedViaRunnerSF s h ⟨round, root, signers⟩ ok
+    else decidedViaCtrlSF s h ⟨round, root, signers⟩ ok
+  | .commits root valOk => commitsStep s root valOk
   | .compact h =>
     let c' := compactAt s.c h
     ({ s with c := c', r := syncRun s.r c' }, .done)
